@@ -8,7 +8,7 @@ from ..pm import AnalysisError, unparse
 from ..report import Check
 from ..sym import Resolver, Term, path_of, show, walk
 from ..tables import Element, function_factory
-from . import shunting
+from . import pushdown, shunting
 from .common import cmp_normal, const_value, loc, strip
 
 EXPLANATION = (
@@ -20,7 +20,7 @@ EXPLANATION = (
     "enumeration); variable resolution and name-clash checks of Function.membership"
 )
 ASSUMPTIONS = ["numpy ufuncs named in the map compute the mathematical function of that name elementwise"]
-FLOORS = {"T1": 13, "T12": 34, "V6": 34 + 13, "V7": 6, "G1": 1, "W2": 2, "X3": 9, "X6": 3, "W3": 5}
+FLOORS = {"PD": 4, "PD2": 4, "T1": 13, "T12": 34, "V6": 34 + 13, "V7": 6, "G1": 1, "W2": 2, "X3": 9, "X6": 3, "W3": 5}
 
 # Appendix A.1: strictly decreasing binding strength
 LADDER = [["!", "~"], ["^", "**", ".-", ".+"], ["*", "/", "%"], ["+", "-"], ["and"], ["or"]]
@@ -64,6 +64,8 @@ def run(check: Check) -> None:
     shunting.stack_safety(check, "Function.infix_to_postfix")
     shunting.parse_arity_guard(check)
     shunting.rejection_checks(check)
+    pushdown.infix_to_postfix(check)
+    pushdown.parse_postfix(check)
     w3_variables(check)
     check.exhaustive_parts += ["operator table vs specification ladder", "pop rule over all orderings", "arity x depth enumeration"]
 
